@@ -6,7 +6,9 @@ Proved here: the invariant for typed set and the bit operations (any history of 
 refused typed / bit / block operation leaves the table unchanged, the exact effect and the
 refusals of bit set / clear, and the invariant across BLOCK WRITES: `block_write_preserves_sat` (every
 overlapped register ends up holding exactly the overlay that was validated, every other register what it
-held) and `history_with_block_writes` (any history of typed sets, bit operations and block writes).
+held), `history_with_block_writes` (any history of typed sets, bit operations and block writes), and
+`sanitise_restores`: from ANY storage content a sanitise run that reports success leaves every register
+satisfying its constraint and every touched mark cleared.
 -/
 import Ufw.Props.C01
 import Ufw.Lemmas.RegBlock
@@ -469,5 +471,256 @@ theorem history_with_block_writes (cb : Nat → Value → Bool) (ops : List Op2)
         exact ih _ hrest ⟨block_write_keeps_layout cb t addr buf hinv.shape hinv.layout, b1, b2, b3,
           fun j hj => b5 j (by rw [← b4]; exact hj)⟩
       · rw [block_write_refused_unchanged cb t addr buf hok]; exact ih t hrest hinv
+
+/-! ### sanitise -/
+
+/-- one register's constraint survives a typed set of any register (accepted or refused) -/
+theorem set_keeps_sat_at (cb : Nat → Value → Bool) (t : Table) (idx : Nat) (v : Value) (hl : Layout t)
+    (hb : v.bits < 2 ^ v.type.bits) (j : Nat) (hj : Sat cb t j) : Sat cb (register_set cb t idx v).2 j := by
+  rcases hres : register_set cb t idx v with ⟨⟨code, adr⟩, t'⟩
+  by_cases hc : code = .success
+  · subst hc
+    obtain ⟨hi, e, a, raw, a', he, hval, ha, _, hs, hwr, ht'⟩ :=
+      Ufw.Props.C01.set_success_inv cb t t' idx v true adr hres
+    have hent : t'.entries = t.entries := by rw [ht']
+    have hdi : t'.duringInit = t.duringInit := by rw [ht']
+    by_cases hij : idx = j
+    · subst hij
+      refine ⟨e, v, by rw [hent]; exact he, Ufw.Props.C01.checked_set_get cb t t' idx v adr hres hb, ?_⟩
+      have := hval rfl
+      simpa [rv_validate, hdi] using this
+    · obtain ⟨e', v', he', hg', hv'⟩ := hj
+      refine ⟨e', v', by rw [hent]; exact he', ?_, ?_⟩
+      · rw [set_other_get cb t t' idx j v true adr hres hl hij]; exact hg'
+      · simpa [rv_validate, hdi] using hv'
+  · have : (register_set cb t idx v).2 = t := set_refused_unchanged cb t idx v (by rw [hres]; exact hc)
+    rw [hres] at this
+    simp only at this
+    subst this
+    exact hj
+
+/-- clearing a touched mark -/
+def untouch (t : Table) (i : Nat) : Table :=
+  { t with entries := t.entries.modify i fun e => { e with touched := false } }
+
+theorem untouch_get (t : Table) (i j : Nat) (e : Entry) (he : t.entries[j]? = some e) :
+    (untouch t i).entries[j]? = some (if i = j then { e with touched := false } else e) := by
+  simp only [untouch, List.getElem?_modify, he, Option.map_some]
+  by_cases h : i = j <;> simp [h]
+
+theorem untouch_register_get (t : Table) (i j : Nat) : register_get (untouch t i) j = register_get t j := by
+  simp only [register_get, untouch, List.getElem?_modify]
+  cases he : t.entries[j]? with
+  | none => simp
+  | some e => by_cases h : i = j <;> simp [h] <;> rfl
+
+theorem untouch_sat (cb : Nat → Value → Bool) (t : Table) (i j : Nat) (h : Sat cb t j) : Sat cb (untouch t i) j := by
+  obtain ⟨e, v, he, hg, hv⟩ := h
+  refine ⟨_, v, untouch_get t i j e he, by rw [untouch_register_get]; exact hg, ?_⟩
+  rw [validate_congr cb t (untouch t i) e _ v rfl (by split <;> rfl) (by split <;> rfl)]
+  exact hv
+
+
+/-- the structural facts every operation keeps -/
+structure Struct (t : Table) : Prop where
+  layout : Layout t
+  shape : Shape t
+  linked : Linked t
+  ascending : Ascending t
+  defaults : ∀ e ∈ t.entries, e.default < 2 ^ e.type.bits
+
+def Untouched (t : Table) (j : Nat) : Prop := ∀ e, t.entries[j]? = some e → e.touched = false
+
+theorem untouch_struct (t : Table) (i : Nat) (h : Struct t) : Struct (untouch t i) := by
+  have key : ∀ (j : Nat) (e' : Entry), (untouch t i).entries[j]? = some e' → ∃ e : Entry, t.entries[j]? = some e ∧
+      e'.area = e.area ∧ e'.offset = e.offset ∧ e'.type = e.type ∧ e'.address = e.address ∧ e'.default = e.default := by
+    intro j e' he'
+    cases he : t.entries[j]? with
+    | none => simp [untouch, List.getElem?_modify, he] at he'
+    | some e =>
+      rw [untouch_get t i j e he] at he'
+      have := Option.some.inj he'
+      refine ⟨e, rfl, ?_⟩
+      rw [← this]; split <;> simp
+  refine ⟨?_, ⟨h.shape.sized, h.shape.disj⟩, ?_, ?_, ?_⟩
+  · intro p q x y hpq hx hy
+    obtain ⟨x0, hx0, a1, a2, a3, _, _⟩ := key p x hx
+    obtain ⟨y0, hy0, b1, b2, b3, _, _⟩ := key q y hy
+    have := h.layout p q x0 y0 hpq hx0 hy0
+    simp only [Apart, a1, a2, a3, b1, b2, b3] at this ⊢
+    exact this
+  · intro j e' he'
+    obtain ⟨e, he, a1, a2, a3, a4, _⟩ := key j e' he'
+    obtain ⟨a, ha, l1, l2, l3⟩ := h.linked j e he
+    exact ⟨a, by rw [a1]; exact ha, by rw [a4]; exact l1, by rw [a2, a4]; exact l2, by rw [a4, a3]; exact l3⟩
+  · simp only [Ascending, untouch]
+    rw [List.pairwise_iff_getElem] 
+    intro p q hp hq hpq
+    have hp' : p < t.entries.length := by simpa using hp
+    have hq' : q < t.entries.length := by simpa using hq
+    have := (List.pairwise_iff_getElem.mp h.ascending) p q hp' hq' hpq
+    simp only [List.getElem_modify]
+    split <;> split <;> simpa using this
+  · intro e' he'
+    obtain ⟨j, hj, hje⟩ := List.getElem_of_mem he'
+    obtain ⟨e, he, _, _, a3, _, a5⟩ := key j e' (by rw [List.getElem?_eq_getElem hj, hje])
+    rw [a5, a3]
+    exact h.defaults e (List.mem_of_getElem? he)
+
+
+theorem set_struct (cb : Nat → Value → Bool) (t : Table) (idx : Nat) (v : Value) (h : Struct t) :
+    Struct (register_set cb t idx v).2 := by
+  obtain ⟨s1, s2, s3⟩ := set_keeps_structure cb t idx v true h.shape h.linked h.ascending
+  obtain ⟨l1, l2⟩ := set_keeps_layout cb t idx v h.layout
+  exact ⟨l1, s1, s2, s3, by rw [l2]; exact h.defaults⟩
+
+/-- a get that answers success returns a value, address 0, and the register exists -/
+theorem get_code_success (t : Table) (i : Nat) (h : (register_get t i).1.code = .success) :
+    ∃ v e, register_get t i = (⟨.success, 0⟩, some v) ∧ t.entries[i]? = some e := by
+  simp only [register_get] at h ⊢
+  split at h
+  · simp at h
+  rename_i hi
+  simp only [hi, ↓reduceIte]
+  cases he : t.entries[i]? with
+  | none => simp [he] at h
+  | some e =>
+    simp only [he] at h ⊢
+    cases ha : t.areas[e.area]? with
+    | none => simp [ha, oob] at h
+    | some a =>
+      simp only [ha] at h ⊢
+      cases hr : a.read e.offset e.type.size with
+      | none => simp [hr, oob] at h
+      | some raw =>
+        simp only [hr] at h ⊢
+        split at h
+        · rename_i hok; simp only [hok, ↓reduceIte]; exact ⟨_, e, rfl, rfl⟩
+        · simp at h
+
+theorem sane_sat (cb : Nat → Value → Bool) (t : Table) (i : Nat) (a : Nat)
+    (h : reg_entry_sane cb t i = ⟨.success, a⟩) : Sat cb t i := by
+  simp only [reg_entry_sane] at h
+  split at h
+  · rename_i adr v e hg he
+    split at h
+    · rename_i hv
+      obtain ⟨v', e', hg', _⟩ := get_code_success t i (by rw [hg])
+      rw [hg] at hg'
+      have hadr : adr = 0 := by simpa using congrArg (fun p => p.1.address) hg'
+      subst hadr
+      exact ⟨e, v, he, hg, hv⟩
+    · simp at h
+  · rename_i acc x y hne heq
+    exfalso
+    obtain ⟨v', e', hg', he'⟩ := get_code_success t i (by rw [hne]; simp [h])
+    rw [hne] at hg'
+    simp only [Prod.mk.injEq] at hg'
+    exact heq 0 v' e' he' hg'.1 hg'.2
+
+
+theorem untouch_entries_length (t : Table) (i : Nat) : (untouch t i).entries.length = t.entries.length := by
+  simp [untouch]
+
+theorem untouch_untouched (t : Table) (i j : Nat) (h : j = i ∨ Untouched t j) : Untouched (untouch t i) j := by
+  intro e' he'
+  cases he : t.entries[j]? with
+  | none => simp [untouch, List.getElem?_modify, he] at he'
+  | some e =>
+    rw [untouch_get t i j e he] at he'
+    have := Option.some.inj he'
+    rw [← this]
+    by_cases hij : i = j
+    · simp [hij]
+    · simp only [hij, ↓reduceIte]
+      rcases h with h | h
+      · exact absurd h.symm hij
+      · exact h e he
+
+/-- the sanitise loop: when it reports success, every register it has passed satisfies its constraint and is
+    marked untouched - whatever the storage held before -/
+theorem sanitise_go (cb : Nat → Value → Bool) : ∀ (todo i : Nat) (t : Table), Struct t →
+    i + todo = t.entries.length → (∀ j, j < i → Sat cb t j ∧ Untouched t j) →
+    (register_sanitise.go cb todo i t).1.code = .success →
+    Struct (register_sanitise.go cb todo i t).2 ∧
+    (register_sanitise.go cb todo i t).2.entries.length = t.entries.length ∧
+    ∀ j, j < t.entries.length → Sat cb (register_sanitise.go cb todo i t).2 j ∧ Untouched (register_sanitise.go cb todo i t).2 j := by
+  intro todo
+  induction todo with
+  | zero =>
+    intro i t hs hlen hinv _
+    simp only [register_sanitise.go]
+    exact ⟨hs, trivial, fun j hj => hinv j (by omega)⟩
+  | succ todo ih =>
+    intro i t hs hlen hinv hok
+    simp only [register_sanitise.go] at hok ⊢
+    rcases hsane : reg_entry_sane cb t i with ⟨c, a⟩
+    rw [hsane] at hok
+    have step : ∀ (t1 : Table), Struct t1 → t1.entries.length = t.entries.length →
+        (∀ j, j < i → Sat cb t1 j ∧ Untouched t1 j) → Sat cb t1 i →
+        (register_sanitise.go cb todo (i + 1) (untouch t1 i)).1.code = .success →
+        Struct (register_sanitise.go cb todo (i + 1) (untouch t1 i)).2 ∧
+        (register_sanitise.go cb todo (i + 1) (untouch t1 i)).2.entries.length = t.entries.length ∧
+        ∀ j, j < t.entries.length → Sat cb (register_sanitise.go cb todo (i + 1) (untouch t1 i)).2 j ∧
+          Untouched (register_sanitise.go cb todo (i + 1) (untouch t1 i)).2 j := by
+      intro t1 hs1 hl1 hinv1 hsat1 hok1
+      have hlu := untouch_entries_length t1 i
+      obtain ⟨r1, r2, r3⟩ := ih (i + 1) (untouch t1 i) (untouch_struct t1 i hs1) (by rw [hlu, hl1]; omega)
+        (fun j hj => by
+          by_cases hji : j = i
+          · subst hji; exact ⟨untouch_sat cb t1 j j hsat1, untouch_untouched t1 j j (Or.inl rfl)⟩
+          · have := hinv1 j (by omega)
+            exact ⟨untouch_sat cb t1 i j this.1, untouch_untouched t1 i j (Or.inr this.2)⟩) hok1
+      exact ⟨r1, by rw [r2, hlu, hl1], fun j hj => r3 j (by rw [hlu, hl1]; exact hj)⟩
+    cases c with
+    | success =>
+      simp only at hok ⊢
+      exact step t hs rfl hinv (sane_sat cb t i a hsane) hok
+    | invalid | range =>
+      simp only at hok ⊢
+      cases he : t.entries[i]? with
+      | none => simp [he, oob] at hok
+      | some e =>
+        simp only [he] at hok ⊢
+        rcases hset : register_set cb t i ⟨e.type, e.default⟩ with ⟨⟨c2, a2⟩, t'⟩
+        rw [hset] at hok
+        cases c2 <;> try (simp at hok)
+        simp only at hok ⊢
+        have hb : (⟨e.type, e.default⟩ : Value).bits < 2 ^ (⟨e.type, e.default⟩ : Value).type.bits :=
+          hs.defaults e (List.mem_of_getElem? he)
+        have hst : Struct t' := by have := set_struct cb t i ⟨e.type, e.default⟩ hs; rw [hset] at this; exact this
+        have hent : t'.entries = t.entries := by
+          have := (set_keeps_layout cb t i ⟨e.type, e.default⟩ hs.layout).2; rw [hset] at this; exact this
+        have hsat_i : Sat cb t' i := by
+          obtain ⟨_, e1, _, _, _, he1, hval, _, _, _, _, ht'⟩ :=
+            Ufw.Props.C01.set_success_inv cb t t' i ⟨e.type, e.default⟩ true a2 hset
+          have hdi : t'.duringInit = t.duringInit := by rw [ht']
+          refine ⟨e1, ⟨e.type, e.default⟩, by rw [hent]; exact he1,
+            Ufw.Props.C01.checked_set_get cb t t' i ⟨e.type, e.default⟩ a2 hset hb, ?_⟩
+          have := hval rfl
+          simpa [rv_validate, hdi] using this
+        refine step t' hst (by rw [hent]) ?_ hsat_i hok
+        intro j hj
+        have := hinv j hj
+        refine ⟨?_, ?_⟩
+        · have h2 := set_keeps_sat_at cb t i ⟨e.type, e.default⟩ hs.layout hb j this.1
+          rw [hset] at h2; exact h2
+        · intro x hx; rw [hent] at hx; exact this.2 x hx
+    | failure | uninitialised | noentry | readonly | ioError => simp at hok
+
+
+/-- After arbitrary out-of-band corruption of the storage: when sanitise reports success, every register
+    decodes and satisfies its constraint again and every touched mark is cleared - nothing is assumed about
+    what the storage held, only the structure `register_init` set up (and defaults that fit their type). -/
+theorem sanitise_restores (cb : Nat → Value → Bool) (t : Table) (hs : Struct t)
+    (hok : (register_sanitise cb t).1.code = .success) :
+    Struct (register_sanitise cb t).2 ∧ (register_sanitise cb t).2.entries.length = t.entries.length ∧
+    ∀ j, j < t.entries.length → Sat cb (register_sanitise cb t).2 j ∧ Untouched (register_sanitise cb t).2 j := by
+  simp only [register_sanitise] at hok ⊢
+  split
+  · rename_i hi; simp [hi] at hok
+  · rename_i hi
+    simp only [hi, ↓reduceIte] at hok
+    exact sanitise_go cb t.entries.length 0 t hs (by omega) (fun j hj => absurd hj (by omega)) hok
 
 end Ufw.Props.C05
